@@ -190,6 +190,7 @@ type Sim struct {
 	evCtx      *eventCtx
 	evPending  []*eventCtx
 	helperSeen map[string]bool
+	Releases   []RelInfo
 
 	oracles *oracleState
 	quiet   bool // quiesce phase: no faults, deterministic
